@@ -16,6 +16,7 @@ def run(repo, res, tier):
     res.assumptions = ["int()/float()/strptime acceptance models", "dateutil absent"]
     an = langrules.analyse(repo)
     langrules.rule_s1(repo, res, an, "own")
+    langrules.rule_snum(repo, res, an, which=("own",))
     langrules.rule_s2(repo, res, an)
     langrules.rule_q1(repo, res, an)
     langrules.rule_fold(repo, res, an)
@@ -25,3 +26,6 @@ def run(repo, res, tier):
     encrules.rule_w1(repo, res, which=("quoted", "flags"))
     encrules.rule_d1(repo, res)
     timerules.rule_r(repo, res)
+    # every text a time writer can return is a time for its own reader (all return paths, as languages)
+    from .. import timerules as _tr
+    _tr.rule_time_lang(repo, res)
